@@ -306,6 +306,36 @@ class CompMixin:
                 for x in src[1][1:]:
                     t = z3.If(self.as_int(x) > t, self.as_int(x), t)
                 return [(st, vint(t))]
+            if src[0] == "seq" and len(args) == 1:
+                # max over a sequence of integers (the keys of an int-keyed dict, a list of ints): an index attaining it, nothing above it
+                seq = src[1]
+                n = z3.Length(seq)
+                out = []
+                for s, nonempty in self.branch(st, n > 0, "max() of non-empty"):
+                    if not nonempty:
+                        if "default" in kw:
+                            out.append((s, kw["default"]))
+                        else:
+                            out.append((self.raise_exc(s, "ValueError"), None))
+                        continue
+                    k = fresh("argmax")
+                    s.assume(z3.And(k >= 0, k < n))
+                    s.idx.append(k)
+                    if not feasible(s.pc + [z3.Not(Val.is_I(seq[k]))]):
+                        pass
+                    else:
+                        s.assume(Val.is_I(seq[k]))          # elements of other kinds: outside this model (ordering of mixed values)
+                        s.ghost = dict(s.ghost, unannotated_loop=True)
+                    m = Val.i(seq[k])
+                    s.univ.append(lambda t, seq=seq, n=n, m=m: z3.Implies(z3.And(t >= 0, t < n), z3.And(Val.is_I(seq[t]), Val.i(seq[t]) <= m)))
+                    if v.k in ("ref", "val") and v.cls == "dict":
+                        # as a key-indexed fact too: every key present is an integer not above the maximum
+                        r = self.as_ref(v, s)
+                        has = s.read("dict.has", r)
+                        s.kuniv.append(lambda key, has=has, m=m: z3.Implies(z3.Select(has, key), z3.And(Val.is_I(key), Val.i(key) <= m)))
+                        s.assume(z3.Select(has, Val.I(m)))
+                    out.append((s, vint(m)))
+                return out
             raise Unsupported(f"{self.where(node)}: max() of {v!r}")
         src = self.comp_source(v, st)
         if src[0] == "static" or self.comp_parts(v)[3].ifs:
